@@ -71,7 +71,8 @@ PROPS = {
         "lean_modules": ["Tulz.Props.C15"],
         "theorems": ["Tulz.C15_discipline_sound", "Tulz.C15_table_follows", "Tulz.C15_no_race", "Tulz.Drf.instance_follows",
                      "Tulz.Drf.discipline_sound", "Tulz.Drf.guarded_ordered", "Tulz.Drf.no_sharing_with_writer", "Tulz.Drf.quiescent_ordered",
-                     "Tulz.racyTrace_race", "Tulz.goodTrace_wf", "Tulz.goodTrace_follows"],
+                     "Tulz.racyTrace_race", "Tulz.racyTrace_wf", "Tulz.goodTrace_wf", "Tulz.goodTrace_follows", "Tulz.table_has_queue_rows",
+                     "Tulz.goodTrace_instances"],
         "trusted_base": [
             "NO correspondence check for this property (a data race is not an observable difference): the tie is the translator "
             "tools/translators/locksets.py (clang >= 16 json AST of harness/drf/ast_probe.cpp, abstract execution of every entry point), "
@@ -250,14 +251,14 @@ def plan(tier, rng):
     cfgs = []
     for mix in (0, 1, 2, 3, 4):
         for th in ((4, 8) if q else (2, 4, 6, 8)):
-            cfgs.append(("resource", th, 6000 if q else 30000, mix))
+            cfgs.append(("resource", th, 15000 if q else 40000, mix))
     for mix in (0, 1, 2, 3):
         for th in ((2, 6) if q else (1, 2, 4, 8)):
-            cfgs.append(("pool", th, 1500 if q else 6000, mix))
+            cfgs.append(("pool", th, 4000 if q else 12000, mix))
     for mix in (0, 1, 2, 3, 4):
         for th in ((4, 8) if q else (4, 5, 6, 7, 8)):
-            cfgs.append(("router", th, 1500 if q else 6000, mix))
-    seeds = 1 if q else 4
+            cfgs.append(("router", th, 4000 if q else 12000, mix))
+    seeds = 2 if q else 5
     runs = []
     for (name, th, iters, mix) in cfgs:
         r = rng.fork("%s/%d/%d" % (name, th, mix))
@@ -293,13 +294,13 @@ def run_tie(prop, spec, tier, seed):
             res.failures.append(Failure("infra", "stress program %s does not compile against the working tree" % name, replay={"compiler": out[-3000:]}))
     runs = [r for r in plan(tier, rng) if bins[r[0]][0] is not None]
     timeout = RUN_TIMEOUT[tier]
-    deadline = t0 + (50 if tier == "quick" else 420)
+    deadline = t0 + (55 if tier == "quick" else 450)
 
     def go(r):
         if time.time() > deadline:
             return None
         return run_one(bins[r[0]][0], r[0], r[1], r[2], r[3], r[4], timeout)
-    with ThreadPoolExecutor(max_workers=3) as ex:
+    with ThreadPoolExecutor(max_workers=4) as ex:
         done = [d for d in ex.map(go, runs) if d is not None]
 
     res.evaluations = len(done)
@@ -375,6 +376,11 @@ def replay(prop, spec, path):
     rp = data.get("replay", {})
     if data.get("kind") == "unproved" or "program" not in rp:
         print(json.dumps(data, indent=1)[:6000])
+        try:
+            translate(prop, spec)                    # the table of the CURRENT working tree
+        except Exception as e:
+            print("translator failed:", repr(e))
+            return 1
         rows, off = offending_rows()
         if rows is not None:
             print("access table: %d rows, %d not following the discipline" % (rows, len(off)))
